@@ -537,12 +537,17 @@ func gen(t *rapid.T) Case {
 	n := rapid.IntRange(0, 5).Draw(t, "nparams")
 	seen := map[string]bool{}
 	for i := 0; i < n; i++ {
-		p := Param{In: rapid.SampledFrom([]string{"query", "header", "cookie"}).Draw(t, "in"), Name: rapid.SampledFrom([]string{"a", "b", "c", "d"}).Draw(t, "name"),
+		p := Param{In: rapid.SampledFrom([]string{"query", "header", "cookie"}).Draw(t, "in"), Name: rapid.SampledFrom([]string{"a", "b", "c", "d", "A", "B"}).Draw(t, "name"),
 			Level: rapid.SampledFrom([]string{"path", "op", "both"}).Draw(t, "level"), Send: rapid.SampledFrom([]string{"absent", "low", "high"}).Draw(t, "send"), Required: rapid.Bool().Draw(t, "required")}
-		if seen[p.In+":"+strings.ToLower(p.Name)] {
+		// names are case-sensitive outside headers: "A" next to "a" is another parameter
+		key := p.In + ":" + p.Name
+		if p.In == "header" {
+			key = p.In + ":" + strings.ToLower(p.Name)
+		}
+		if seen[key] {
 			continue
 		}
-		seen[p.In+":"+strings.ToLower(p.Name)] = true
+		seen[key] = true
 		c.Params = append(c.Params, p)
 	}
 	c.Body = rapid.SampledFrom([]string{"none", "valid", "invalid", "absent-required"}).Draw(t, "body")
